@@ -25,21 +25,21 @@ OBLIGATIONS = [
     s(1, 'overshoot_h2m2', {'NH': 2, 'NM': 2}, ['SAFETY'], cand=1, tiers=T),
     s(2, 'overshoot_h2m2', {'NH': 2, 'NM': 2}, ['SAFETY'], cand=1, tiers=T),
     s(3, 'overshoot_h3', {'NH': 3}, ['SAFETY'], cand=1, tiers=T),
-    s(4, 'overshoot_h2m2', {'NH': 2, 'NM': 2}, ['SAFETY'], cand=1, mem_gb=16),
+    s(4, 'overshoot_h2m2', {'NH': 2, 'NM': 2}, ['SAFETY'], cand=1, mem_gb=4),
     s(5, 'overshoot_m3', {'NM': 3}, ['SAFETY'], cand=1, tiers=T),
     s(6, 'overshoot_s3', {'NS': 3}, ['SAFETY'], cand=1, tiers=T),
     # (2) the largest lists the parser lets through
-    s(4, 'allhours_0_24', {}, ['SAFETY', 'ALLHOURS'], cand=1, uw={'make_enum.*': 64, 'harness.*': 64, 'rrul_fill_dly.6': 31, 'rrul_fill_dly.8': 7}, mem_gb=24, timeout=2400),
+    s(4, 'allhours_0_24', {}, ['SAFETY', 'ALLHOURS'], cand=1, uw={'make_enum.*': 64, 'harness.*': 64, 'rrul_fill_dly.6': 31, 'rrul_fill_dly.8': 7}, mem_gb=10, timeout=850),
     s(4, 'allseconds_0_60', {}, ['SAFETY', 'ALLSECONDS'], cand=1, uw={'make_enum.*': 64, 'harness.*': 64, 'rrul_fill_dly.6': 67, 'rrul_fill_dly.8': 7}, mem_gb=30, timeout=3000, tiers=T),
     # (3) empty recurrence sets
     s(1, 'empty_feb30', {'NMON': 1, 'NDOM': 1}, ['EMPTY=ASSUME(in.mon[0] == 2 && in.dom[0] >= 30)'], cand=1, uw={'rrul_fill_yly.*': 68}, timeout=1500, tiers=T),
     s(2, 'empty_feb30', {'NMON': 1, 'NDOM': 1}, ['EMPTY=ASSUME(in.mon[0] == 2 && in.dom[0] >= 30)'], cand=1, uw={'rrul_fill_mly.*': 68}, timeout=1500, tiers=T),
     # BYMONTH months that INTERVAL can never reach from DTSTART's month: the month-skipping loop must not be entered
-    s(2, 'empty_incongruent_bymonth', {'NMON': 1}, ['EMPTY=ASSUME((in.mon[0] - in.m) % 3 != 0)'], inter=3, cand=1, uw={'rrul_fill_mly.*': 3}),
-    s(2, 'empty_incongruent_bymonth', {'NMON': 1}, ['EMPTY=ASSUME((in.mon[0] - in.m) % 6 != 0)'], inter=6, cand=1, uw={'rrul_fill_mly.*': 3}),
-    s(4, 'empty_feb30', {'NMON': 1, 'NDOM': 1}, ['EMPTY=ASSUME(in.mon[0] == 2 && in.dom[0] >= 30)', 'YMIN=2099', 'DMIN=1'], cand=1, uw={'rrul_fill_dly.*': 40}, timeout=1500, mem_gb=16),
+    s(2, 'empty_incongruent_bymonth', {'NMON': 1}, ['EMPTY=ASSUME((in.mon[0] - in.m) % 3 != 0)'], inter=3, cand=1, uw={'rrul_fill_mly.*': 3}, mem_gb=6, timeout=800),
+    s(2, 'empty_incongruent_bymonth', {'NMON': 1}, ['EMPTY=ASSUME((in.mon[0] - in.m) % 6 != 0)'], inter=6, cand=1, uw={'rrul_fill_mly.*': 3}, mem_gb=6, timeout=800),
+    s(4, 'empty_feb30', {'NMON': 1, 'NDOM': 1}, ['EMPTY=ASSUME(in.mon[0] == 2 && in.dom[0] >= 30)', 'YMIN=2099', 'DMIN=1'], cand=1, uw={'rrul_fill_dly.*': 40}, timeout=800, mem_gb=6),
     s(4, 'empty_feb30_from2098', {'NMON': 1, 'NDOM': 1}, ['EMPTY=ASSUME(in.mon[0] == 2 && in.dom[0] >= 30)', 'YMIN=2098'], cand=1, uw={'rrul_fill_dly.*': 740}, timeout=3400, mem_gb=24, tiers=T),
     s(5, 'empty_oddhour', {'NH': 1}, ['EMPTY=ASSUME((in.bh[0] & 1) != (in.H & 1))', 'YMIN=2099', 'DMIN=30'], inter=2, cand=1, uw={'rrul_fill_Hly.*': 40}, mem_gb=16, timeout=3000, tiers=T),
-    s(5, 'empty_oddhour_lastday', {'NH': 1}, ['EMPTY=ASSUME((in.bh[0] & 1) != (in.H & 1))', 'YMIN=2099', 'DMIN=31'], inter=2, cand=1, uw={'rrul_fill_Hly.*': 16}, mem_gb=16, timeout=1800),
+    s(5, 'empty_oddhour_lastday', {'NH': 1}, ['EMPTY=ASSUME((in.bh[0] & 1) != (in.H & 1))', 'YMIN=2099', 'DMIN=31'], inter=2, cand=1, uw={'rrul_fill_Hly.*': 16}, mem_gb=4, timeout=800),
     s(6, 'empty_oddminute', {'NM': 1}, ['EMPTY=ASSUME((in.bm[0] & 1) != (in.M & 1))', 'YMIN=2099', 'DMIN=31', 'HMIN'], inter=2, cand=1, uw={'rrul_fill_Mly.*': 70}, tiers=T),
 ]
